@@ -683,7 +683,7 @@ func (p Parameters) WriteTo(w io.Writer) (n int64, err error) {
 
 		var inc int
 		if inc, err = w.Write(bytes); err != nil {
-			return int64(n), fmt.Errorf("io.Write.Write: %w", err)
+			return n + int64(inc), fmt.Errorf("io.Write.Write: %w", err)
 		}
 
 		n += int64(inc)
